@@ -341,6 +341,8 @@ func genC26e2e(g *Gen, tier string, w *bufio.Writer) {
 	fmt.Fprintln(w, e2eLine(fixed, "SELECT a.c0, (SELECT x.c1 FROM @T x WHERE x.c0 = a.c0) AS s FROM t.csv a"))
 	fmt.Fprintln(w, e2eLine(fixed, "SELECT * FROM t.csv a LOOKUP JOIN @T x ON a.c0 = x.c0"))
 	fmt.Fprintln(w, e2eLine(fixed, "SELECT a.c0 FROM t.csv a WHERE a.c0 IN (SELECT x.c0 FROM @T x WHERE x.c1 = a.c1)"))
+	// a predicate with a subquery cannot be serialised: it must stay on the octosql side, not get lost
+	fmt.Fprintln(w, e2eLine(fixed, "SELECT * FROM @T x WHERE x.c0 IN (SELECT y.c0 FROM t.csv y WHERE y.c1 = 'x') AND len(x.c1) = 1"))
 	for i := 0; i < n; i++ {
 		t := genQTable(g, o)
 		p := e2ePred(g, t.cols, 2)
@@ -349,7 +351,9 @@ func genC26e2e(g *Gen, tier string, w *bufio.Writer) {
 			sel = "x." + t.cols[g.Intn(len(t.cols))].name
 		}
 		k := "c" + strconv.Itoa(g.Intn(len(t.cols)))
-		switch g.Intn(6) {
+		switch g.Intn(7) {
+		case 6:
+			fmt.Fprintln(w, e2eLine(t, "SELECT * FROM @T x WHERE x."+k+" IN (SELECT y."+k+" FROM t.csv y WHERE "+strings.ReplaceAll(p, "x.", "y.")+") AND "+e2ePred(g, t.cols, 1)))
 		case 0:
 			fmt.Fprintln(w, e2eLine(t, "SELECT a.c0, (SELECT x.c0 FROM @T x WHERE x."+k+" = a."+k+" AND "+p+") AS s FROM t.csv a"))
 		case 1:
